@@ -8,7 +8,7 @@ from vlib import (Inconclusive, Scratch, Verdict, copy_specs, go_build, log, mak
                   validate_sharded, write_evidence, NCPU)
 
 FAMILY = "logger"
-SHAPES = '{"flat", "dict", "arr", "carr", "obj", "big", "ctxobj", "ctxarr", "fobj"}'
+SHAPES = '{"flat", "dict", "arr", "carr", "obj", "big", "ctxobj", "ctxarr", "fobj", "drop"}'
 
 
 def overlay(sc):
@@ -27,7 +27,7 @@ def model_part(mdir, tier, seed):
 
     def one(c):
         G, K, sync, shapes = c
-        consts = "CONSTANTS G = %d\n K = %d\n Sync = %s\n Shapes = %s\n" % (G, K, "TRUE" if sync else "FALSE", shapes)
+        consts = "CONSTANTS G = %d\n K = %d\n Sync = %s\n Shapes = %s\n DiscardPuts = FALSE\n" % (G, K, "TRUE" if sync else "FALSE", shapes)
         r = tlc(mdir, "EventLife", consts + "SPECIFICATION Spec\nVIEW View\nCHECK_DEADLOCK FALSE\nINVARIANTS SingleOwner StableDuringWrite NoOverlapUnderSync PoolBalanced\n",
                 workers=4, timeout=2400, cfg_name="el_%d%d%s.cfg" % (G, K, sync))
         if not r.completed:
